@@ -61,7 +61,7 @@ class CoordinateShiftOperation(Barrier, ICircuitOperation):
     # endregion
 
 
-@dataclass(frozen=False, unsafe_hash=True)
+@dataclass(frozen=False, eq=False)
 class DetectorOperation(SingleQubitOperation, ICircuitOperation):
     """
     Basic channel operation covers all qubit channels.
@@ -155,7 +155,7 @@ class DetectorOperation(SingleQubitOperation, ICircuitOperation):
     # endregion
 
 
-@dataclass(frozen=False, unsafe_hash=True)
+@dataclass(frozen=False, eq=False)
 class LogicalObservableOperation(SingleQubitOperation, ICircuitOperation):
     """
     Basic channel operation covers all qubit channels.
